@@ -12,6 +12,13 @@
 //!   LOADED <bytes-id> <path>    bytes-id = id (the file's bytes), 1000000+id (assembled from it),
 //!                               2000000+id (encoding of the WIT directory), 3000000+id (encoding of the WIT file)
 //!   SKIPPED | ERR UnknownPackage | ERR PackageResolutionFailure | ERR <other> | PANIC
+//!
+//! Multi-key case line (several keys in ONE `resolve` call over one merged layout):
+//!   c18m <wat> <error_on_unknown> <root> <overrides> <nodes> <keys>      keys: '|' separated  <name>~<version|none>
+//! Node variant 7: directory holding a WIT package that VENDORS a dependency (`deps/common/c.wit`, the same WIT
+//! package `vendor:common` in every such directory).  Observation:
+//!   MULTI OK <o1>;<o2>;...        oi = L:<bytes-id>:<path> | S          (request order)
+//!   MULTI ERR <UnknownPackage|PackageResolutionFailure> <index of the key the error names>
 use indexmap::IndexMap;
 use std::collections::HashMap;
 use std::io::Write;
@@ -77,6 +84,19 @@ fn file_content(k: usize, variant: u8) -> Vec<u8> {
     }
 }
 fn dir_wit(k: usize) -> String { format!("package mk:d{k};\ninterface i {{ f: func(); }}\n") }
+/// variant 7: a WIT package that uses a type of a dependency vendored in its own `deps/` folder
+fn dir_wit_vendoring(k: usize) -> String {
+    format!("package mk:v{k};\ninterface i {{ use vendor:common/t.{{x}}; f: func() -> x; }}\n")
+}
+const VENDORED_DEP: &str = "package vendor:common;\ninterface t { type x = u8; }\n";
+fn write_dir_content(p: &Path, k: usize, variant: u8) {
+    if variant == 5 { std::fs::write(p.join("a.wit"), dir_wit(k)).unwrap(); }
+    if variant == 7 {
+        std::fs::write(p.join("a.wit"), dir_wit_vendoring(k)).unwrap();
+        std::fs::create_dir_all(p.join("deps").join("common")).unwrap();
+        std::fs::write(p.join("deps").join("common").join("c.wit"), VENDORED_DEP).unwrap();
+    }
+}
 
 /// Library oracles, computed independently of the resolver with the same crates it uses.
 struct Oracles { scratch: PathBuf, cache: HashMap<(usize, u8), [Option<Vec<u8>>; 4]> }
@@ -98,7 +118,7 @@ impl Oracles {
             } else {
                 let d = scratch.join(format!("o{k}_{variant}"));
                 std::fs::create_dir_all(&d).unwrap();
-                if variant == 5 { std::fs::write(d.join("a.wit"), dir_wit(k)).unwrap(); }
+                write_dir_content(&d, k, variant);
                 let mut r = wit_parser::Resolve::new();
                 out[2] = r.push_dir(&d).ok().and_then(|(p, _)| wit_component::encode(&r, p).ok());
                 std::fs::remove_dir_all(&d).unwrap();
@@ -110,24 +130,135 @@ impl Oracles {
 
 fn join(base: &Path, comps: &[String]) -> PathBuf { let mut p = base.to_path_buf(); for c in comps { p.push(c); } p }
 
-fn run_case(c: &Case, dir: &Path, or: &mut Oracles, wat_built: bool) -> String {
-    // a case recorded for the other feature configuration cannot be observed by this build
-    if c.wat != wat_built { return "SKIP-FEATURE".into(); }
+fn build_layout(nodes: &[Node], dir: &Path) {
     let _ = std::fs::remove_dir_all(dir);
     std::fs::create_dir_all(dir).unwrap();
     // directories first (shortest path first), then files
-    let mut order: Vec<&Node> = c.nodes.iter().collect();
+    let mut order: Vec<&Node> = nodes.iter().collect();
     order.sort_by_key(|n| (!n.dir, n.path.len()));
     for n in order {
         let p = join(dir, &n.path);
         if n.dir {
             std::fs::create_dir_all(&p).unwrap();
-            if n.variant == 5 { std::fs::write(p.join("a.wit"), dir_wit(n.k)).unwrap(); }
+            write_dir_content(&p, n.k, n.variant);
         } else {
             std::fs::create_dir_all(p.parent().unwrap()).unwrap();
             std::fs::write(&p, file_content(n.k, n.variant)).unwrap();
         }
     }
+}
+
+/// Which node's content (raw / assembled / encoded) are these bytes?
+fn identify(bytes: &[u8], nodes: &[Node], or: &mut Oracles) -> Option<(usize, String)> {
+    for n in nodes {
+        let id = 10 * n.k + n.variant as usize;
+        let o = or.get(n.k, n.variant);
+        for (slot, off) in [(0usize, 0usize), (1, 1_000_000), (2, 2_000_000), (3, 3_000_000)] {
+            if o[slot].as_deref() == Some(bytes) { return Some((off + id, n.path.join("/"))); }
+        }
+    }
+    None
+}
+
+// ---------------------------------------------------------------- several keys in one call
+
+#[derive(Clone, Debug)]
+struct Multi {
+    wat: bool,
+    error_on_unknown: bool,
+    root: Vec<String>,
+    overrides: Vec<(String, Vec<String>)>,
+    nodes: Vec<Node>,
+    keys: Vec<(String, Option<String>)>,
+}
+
+impl Multi {
+    fn line(&self) -> String {
+        let ov = self.overrides.iter().map(|(n, p)| format!("{}={}", enc(n), enc_path(p))).collect::<Vec<_>>().join("|");
+        let nodes = self.nodes.iter()
+            .map(|n| format!("{}:{}:{}:{}", if n.dir { "D" } else { "F" }, n.k, n.variant, enc_path(&n.path)))
+            .collect::<Vec<_>>().join("|");
+        let keys = self.keys.iter()
+            .map(|(n, v)| format!("{}~{}", enc(n), v.as_ref().map(|v| enc(v)).unwrap_or("none".into())))
+            .collect::<Vec<_>>().join("|");
+        format!("c18m\t{}\t{}\t{}\t{}\t{}\t{}", self.wat as u8, self.error_on_unknown as u8, enc_path(&self.root), ov, nodes, keys)
+    }
+    fn parse(line: &str) -> Option<Multi> {
+        let f: Vec<&str> = line.split('\t').collect();
+        if f.len() != 7 || f[0] != "c18m" { return None; }
+        let overrides = if f[4].is_empty() { vec![] } else {
+            f[4].split('|').map(|e| { let (n, p) = e.split_once('=').unwrap(); (dec(n), dec_path(p)) }).collect() };
+        let nodes = if f[5].is_empty() { vec![] } else {
+            f[5].split('|').map(|e| {
+                let g: Vec<&str> = e.splitn(4, ':').collect();
+                Node { dir: g[0] == "D", k: g[1].parse().unwrap(), variant: g[2].parse().unwrap(), path: dec_path(g[3]) }
+            }).collect() };
+        let keys = f[6].split('|').filter(|e| !e.is_empty()).map(|e| {
+            let (n, v) = e.split_once('~').unwrap(); (dec(n), if v == "none" { None } else { Some(dec(v)) }) }).collect();
+        Some(Multi { wat: f[1] == "1", error_on_unknown: f[2] == "1", root: dec_path(f[3]), overrides, nodes, keys })
+    }
+}
+
+/// Merge single-key cases with pairwise different package names into one layout; node ids are made unique, each
+/// case's override files move to their own directory, WIT package directories become vendoring ones on request.
+fn merge_cases(cases: &[Case], vendoring: &[bool]) -> Multi {
+    let mut nodes: Vec<Node> = Vec::new();
+    let mut overrides = Vec::new();
+    let mut keys = Vec::new();
+    let mut have: std::collections::HashSet<Vec<String>> = std::collections::HashSet::new();
+    for (i, c) in cases.iter().enumerate() {
+        let rename = |p: &Vec<String>| -> Vec<String> {
+            let mut q = p.clone();
+            if q.first().map(|x| x == "ov").unwrap_or(false) { q[0] = format!("ov{i}"); }
+            q
+        };
+        for n in &c.nodes {
+            let path = rename(&n.path);
+            if !have.insert(path.clone()) { continue; }      // shared plain parent directories
+            let variant = if n.variant == 5 && vendoring[i] { 7 } else { n.variant };
+            nodes.push(Node { dir: n.dir, k: 100 * (i + 1) + n.k, variant, path });
+        }
+        for (n, p) in &c.overrides { overrides.push((n.clone(), rename(p))); }
+        keys.push((c.name.clone(), c.version.clone()));
+    }
+    Multi { wat: cases[0].wat, error_on_unknown: cases[0].error_on_unknown, root: cases[0].root.clone(), overrides, nodes, keys }
+}
+
+fn run_multi(m: &Multi, dir: &Path, or: &mut Oracles, wat_built: bool) -> String {
+    if m.wat != wat_built { return "SKIP-FEATURE".into(); }
+    build_layout(&m.nodes, dir);
+    let overrides: HashMap<String, PathBuf> = m.overrides.iter().map(|(n, p)| (n.clone(), join(dir, p))).collect();
+    let resolver = FileSystemPackageResolver::new(join(dir, &m.root), overrides, m.error_on_unknown);
+    let versions: Vec<Option<semver::Version>> = m.keys.iter()
+        .map(|(_, v)| v.as_ref().map(|v| semver::Version::parse(v).expect("case version must be valid semver"))).collect();
+    let bkeys: Vec<BorrowedPackageKey> = m.keys.iter().zip(versions.iter())
+        .map(|((n, _), v)| BorrowedPackageKey::from_name_and_version(n, v.as_ref())).collect();
+    let mut keys = IndexMap::new();
+    for (i, k) in bkeys.iter().enumerate() { keys.insert(*k, miette::SourceSpan::from((i, 0usize))); }
+    let idx = |name: &str| m.keys.iter().position(|(n, _)| n == name).map(|i| i.to_string()).unwrap_or("?".into());
+    let obs = match resolver.resolve(&keys) {
+        Ok(map) => {
+            if map.keys().any(|k| !bkeys.contains(k)) { "MULTI OK-WRONG-KEY".to_string() } else {
+                let parts: Vec<String> = bkeys.iter().map(|k| match map.get(k) {
+                    None => "S".to_string(),
+                    Some(bytes) => match identify(bytes, &m.nodes, or) {
+                        Some((id, p)) => format!("L:{id}:{p}"), None => "L:unknown-bytes".into() },
+                }).collect();
+                format!("MULTI OK {}", parts.join(";"))
+            }
+        }
+        Err(Error::UnknownPackage { name, .. }) => format!("MULTI ERR UnknownPackage {}", idx(&name)),
+        Err(Error::PackageResolutionFailure { name, .. }) => format!("MULTI ERR PackageResolutionFailure {}", idx(&name)),
+        Err(e) => format!("MULTI ERR {}", format!("{e:?}").split(|c: char| !c.is_alphanumeric()).next().unwrap_or("?")),
+    };
+    let _ = std::fs::remove_dir_all(dir);
+    obs
+}
+
+fn run_case(c: &Case, dir: &Path, or: &mut Oracles, wat_built: bool) -> String {
+    // a case recorded for the other feature configuration cannot be observed by this build
+    if c.wat != wat_built { return "SKIP-FEATURE".into(); }
+    build_layout(&c.nodes, dir);
     let overrides: HashMap<String, PathBuf> = c.overrides.iter().map(|(n, p)| (n.clone(), join(dir, p))).collect();
     let resolver = FileSystemPackageResolver::new(join(dir, &c.root), overrides, c.error_on_unknown);
     let version = c.version.as_ref().map(|v| semver::Version::parse(v).expect("case version must be valid semver"));
@@ -140,14 +271,7 @@ fn run_case(c: &Case, dir: &Path, or: &mut Oracles, wat_built: bool) -> String {
         Ok(map) => {
             if map.len() > 1 { "OK-TOO-MANY".to_string() }
             else if let Some(bytes) = map.get(&key) {
-                let mut found = None;
-                'outer: for n in &c.nodes {
-                    let id = 10 * n.k + n.variant as usize;
-                    let o = or.get(n.k, n.variant);
-                    for (slot, off) in [(0usize, 0usize), (1, 1_000_000), (2, 2_000_000), (3, 3_000_000)] {
-                        if o[slot].as_deref() == Some(bytes.as_slice()) { found = Some((off + id, n.path.join("/"))); break 'outer; }
-                    }
-                }
+                let found = identify(bytes.as_slice(), &c.nodes, or);
                 match found { Some((id, p)) => format!("LOADED {id} {p}"), None => "LOADED unknown-bytes".into() }
             } else if map.is_empty() { "SKIPPED".into() } else { "OK-WRONG-KEY".into() }
         }
@@ -234,6 +358,9 @@ fn build_case(idx: usize, wat: bool) -> Case {
     Case { wat, error_on_unknown: mode == 1, name: s(name), version: version.map(s), root, overrides, nodes }
 }
 
+/// index (mode 0) of the case "key variant keyv, B in state b_st, nothing else"
+fn key_case_idx(keyv: usize, b_st: usize) -> usize { ((keyv * N_B + b_st) * (N_WAT * N_WASM * N_OV)) * N_MODE }
+
 fn main() {
     let args: Vec<String> = std::env::args().collect();
     let tier = args[1].as_str();
@@ -250,6 +377,35 @@ fn main() {
         for idx in 0..total {
             if tier == "thorough" || r.chance(1, 8) { lines.push(build_case(idx, wat_built).line()); }
         }
+        // several keys in one call: 1-3 cases with pairwise different names (so that the layouts do not overlap),
+        // biased towards WIT package directories, half of them vendoring the same dependency
+        let n_multi = if tier == "thorough" { 4000 } else { 600 };
+        let mut fixed: Vec<(Vec<usize>, Vec<bool>)> = vec![
+            // two / three unversioned keys whose B is a WIT package directory vendoring the same dependency
+            (vec![key_case_idx(0, 2), key_case_idx(1, 2)], vec![true, true]),
+            (vec![key_case_idx(0, 2), key_case_idx(1, 2), key_case_idx(2, 2)], vec![true, true, true]),
+            (vec![key_case_idx(1, 2), key_case_idx(0, 2)], vec![false, true]),
+        ];
+        for _ in 0..n_multi {
+            let n = 1 + r.below(3) as usize;
+            let mut names: Vec<usize> = vec![0, 1, 2];
+            for i in (1..3).rev() { let j = r.below((i + 1) as u64) as usize; names.swap(i, j); }
+            let mut idxs = Vec::new(); let mut vend = Vec::new();
+            for &nm in names.iter().take(n) {
+                // key variant with this name: unversioned, or one of the 8 versioned variants
+                let keyv = if r.chance(1, 2) { nm } else { 3 + nm + 3 * (r.below(8) as usize) };
+                let b_st = if r.chance(2, 3) { 2 } else { r.below(N_B as u64) as usize };
+                let rest = r.below((N_WAT * N_WASM * N_OV) as u64) as usize;
+                idxs.push(((keyv * N_B + b_st) * (N_WAT * N_WASM * N_OV) + rest) * N_MODE);
+                vend.push(r.chance(1, 2));
+            }
+            fixed.push((idxs, vend));
+        }
+        for (idxs, vend) in fixed {
+            let mode = r.below(2) as usize;
+            let cases: Vec<Case> = idxs.iter().map(|&i| build_case(i + mode, wat_built)).collect();
+            lines.push(merge_cases(&cases, &vend).line());
+        }
     }
     let base = std::env::temp_dir().join(format!("wacv-c18-{}-{}", std::process::id(), seed));
     let _ = std::fs::remove_dir_all(&base);
@@ -257,7 +413,8 @@ fn main() {
     let mut or = Oracles { scratch: base.join("oracle"), cache: HashMap::new() };
     // sanity of the content templates against the real libraries (what the model-side oracle table assumes)
     for (v, want) in [(0u8, [true, true, false, false]), (1, [true, true, false, false]), (2, [true, false, false, false]),
-                      (3, [true, false, false, true]), (5, [false, false, true, false]), (6, [false, false, false, false])] {
+                      (3, [true, false, false, true]), (5, [false, false, true, false]), (6, [false, false, false, false]),
+                      (7, [false, false, true, false])] {
         let got = or.get(0, v);
         let got = [got[0].is_some(), got[1].is_some(), got[2].is_some(), got[3].is_some()];
         assert_eq!(got, want, "content template variant {v} does not behave as tabulated");
@@ -283,7 +440,13 @@ fn main() {
     for l in &lines {
         writeln!(co, "{l}").unwrap();
         let out = match Case::parse(l) {
-            None => "BAD-LINE".to_string(),
+            None => match Multi::parse(l) {
+                None => "BAD-LINE".to_string(),
+                Some(m) => {
+                    let r = catch_unwind(std::panic::AssertUnwindSafe(|| run_multi(&m, &case_dir, &mut or, wat_built)));
+                    r.unwrap_or_else(|_| "MULTI PANIC".to_string())
+                }
+            },
             Some(c) => {
                 let r = catch_unwind(std::panic::AssertUnwindSafe(|| run_case(&c, &case_dir, &mut or, wat_built)));
                 r.unwrap_or_else(|_| "PANIC".to_string())
